@@ -128,3 +128,29 @@ func init() {
 		Rebuild: rebuildModel,
 	})
 }
+
+// exploreShared explores scenario number i of a check: configurations with a real schedule space
+// (bound >= 1) are explored by ALL workers together (level-1 subtrees dealt round-robin, which
+// balances the load far better than dealing whole configurations); trivial ones are dealt one per worker.
+func exploreShared(c *hx.Ctx, prop string, i int, sc func() *hx.Scenario, ec hx.ExploreCfg) {
+	if ec.Bound != 0 && !ec.DefaultOnly {
+		ec.Shard, ec.NShards = c.Shard, c.NShards
+		hx.Explore(prop, sc(), ec, c.Res)
+		return
+	}
+	if c.Mine(i) {
+		hx.Explore(prop, sc(), ec, c.Res)
+	}
+}
+
+// delayBound: scenarios with many short-lived threads (pool requests, put goroutines, conc blocks)
+// are explored with delay bounding: 2 deviations quick, 3 thorough; configurations marked 0 keep 0.
+func delayBound(c *hx.Ctx, b int) int {
+	if b == 0 {
+		return 0
+	}
+	if c.Thorough() {
+		return 3
+	}
+	return 2
+}
